@@ -407,15 +407,16 @@ func (s *spanScreen) writeSpanAt(x int, y int, sp Span, cr ChangeReason) int {
 	line := &s.lines[y]
 	// Text written on the second cell of a wide character is inserted after
 	// it; an erase there blanks the character.
-	shift := replaceRangeWide(line, x, sp.Width, sp, s.textMode, cr == CRText)
+	info := replaceRangeWide(line, x, sp.Width, sp, s.textMode, cr == CRText)
 	if lineCellWidth(line) > s.size.X {
 		// the insert pushed the rest of the row to the right: cut it back
 		truncateLine(line, s.size.X, s.style, s.textMode)
 		s.frontend.RegionChanged(Region{Y: y, Y2: y + 1, X: 0, X2: s.size.X}, cr)
-		return shift
+		return info.shift
 	}
-	s.frontend.RegionChanged(Region{Y: y, Y2: y + 1, X: x, X2: x + sp.Width}, cr)
-	return shift
+	// cells of wide characters cut by the range changed too (to blanks)
+	s.frontend.RegionChanged(Region{Y: y, Y2: y + 1, X: x - info.startFill, X2: x + sp.Width + info.endFill}, cr)
+	return info.shift
 }
 
 func (s *spanScreen) rawWriteRune(x int, y int, r rune, width int, cr ChangeReason) {
@@ -454,7 +455,7 @@ func (s *spanScreen) deleteChars(x int, y int, n int, cr ChangeReason) {
 
 	line := &s.lines[y]
 	// Delete characters from x to x+n, shift remaining chars left, and append spaces at the end
-	replaceRangeWide(line, x, n, Span{Style: s.style}, s.textMode, false)
+	info := replaceRangeWide(line, x, n, Span{Style: s.style}, s.textMode, false)
 	// Now append spaces to fill the end to width s.size.X
 	curWidth := lineCellWidth(line)
 	if curWidth < s.size.X {
@@ -462,7 +463,7 @@ func (s *spanScreen) deleteChars(x int, y int, n int, cr ChangeReason) {
 		line.width = s.size.X
 	}
 
-	s.frontend.RegionChanged(Region{Y: y, Y2: y + 1, X: x, X2: s.size.X}, cr)
+	s.frontend.RegionChanged(Region{Y: y, Y2: y + 1, X: x - info.startFill, X2: s.size.X}, cr)
 }
 
 func (s *spanScreen) setCursorPos(x, y int) {
@@ -858,21 +859,25 @@ func replaceRange(line *spanLine, x int, n int, insert Span, mode TextReadMode) 
 // by the start of the range made explicit: it is kept (text writes) or turned
 // into blanks in insert.Style (erase, delete, truncate). A wide character cut
 // by the end of the range always becomes blanks.
-//
-// It returns the number of cells by which insert landed to the right of x
-// because a wide character was kept (0 otherwise).
-func replaceRangeWide(line *spanLine, x int, n int, insert Span, mode TextReadMode, keepWide bool) int {
-	shift := replaceRangeSpans(line, x, n, insert, mode, keepWide)
+func replaceRangeWide(line *spanLine, x int, n int, insert Span, mode TextReadMode, keepWide bool) spliceInfo {
+	info := replaceRangeSpans(line, x, n, insert, mode, keepWide)
 	// The cached width is the sum of the span widths.
 	width := 0
 	for _, sp := range line.spans {
 		width += sp.Width
 	}
 	line.width = width
-	return shift
+	return info
 }
 
-func replaceRangeSpans(line *spanLine, x int, n int, insert Span, mode TextReadMode, keepWide bool) (shift int) {
+// spliceInfo says what replaceRange did beyond the requested range.
+type spliceInfo struct {
+	shift     int // cells by which insert landed right of x because a wide character was kept
+	startFill int // cells left of x that became blank (wide character cut by x)
+	endFill   int // cells right of x+n that became blank (wide character cut by x+n)
+}
+
+func replaceRangeSpans(line *spanLine, x int, n int, insert Span, mode TextReadMode, keepWide bool) (info spliceInfo) {
 	// Fast return for a no-op insert.
 	if n == 0 && insert.Width == 0 {
 		return
@@ -988,7 +993,7 @@ func replaceRangeSpans(line *spanLine, x int, n int, insert Span, mode TextReadM
 				} else {
 					left = splitWide
 				}
-				shift = left.Width - startOffset
+				info.shift = left.Width - startOffset
 			} else {
 				startFill = startOffset - left.Width
 			}
@@ -1007,6 +1012,8 @@ func replaceRangeSpans(line *spanLine, x int, n int, insert Span, mode TextReadM
 		}
 		hasRight = right.Width > 0
 	}
+
+	info.startFill, info.endFill = startFill, endFill
 
 	// The pieces that replace spans[startIdx : endIdx+1].
 	var mid [5]Span
